@@ -81,6 +81,7 @@ def build_gram():
 def gv(args, timeout=3600, check=True, env=None):
     build_harness()
     e = dict(os.environ)
+    e.update({"MALLOC_TRIM_THRESHOLD_": "2000000000", "MALLOC_TOP_PAD_": "268435456", "MALLOC_MMAP_THRESHOLD_": "1073741824"})
     if env:
         e.update(env)
     r = sh([GV] + [str(a) for a in args], stdout=subprocess.PIPE, stderr=subprocess.PIPE, text=True, timeout=timeout, env=e)
@@ -339,6 +340,7 @@ class Check:
         self.assumptions = []
         self.violations = []  # (what, replay_obj)
         self.known = []
+        self.probe_failures = []
         self.quick = tier == "quick"
 
     def add_tlc(self, st, role):
@@ -370,7 +372,7 @@ class Check:
     def probe(self, name, detected):
         self.cov["probes"].append({"probe": name, "detected": bool(detected)})
         if not detected:
-            raise ToolError("sensitivity probe '%s' was NOT detected: the binding is broken" % name)
+            self.probe_failures.append(name)
 
     def finish(self):
         os.makedirs(os.path.join(EVID, "replays"), exist_ok=True)
@@ -409,6 +411,9 @@ class Check:
                 log(what)
             log("%d violation(s) in total" % len(real))
             return 1
+        if self.probe_failures:
+            # a check that cannot see a planted corruption proves nothing: tool error, never a pass
+            raise ToolError("sensitivity probe(s) NOT detected: %s -- the binding is broken" % "; ".join(self.probe_failures))
         log("%s %s: ok in %.0fs (states=%d, replayed=%d, trace events=%d)" % (self.pid, self.tier, time.time() - self.t0,
             self.cov["states"], self.cov["replayed_cases"], self.cov["trace_events"]))
         return 0
